@@ -159,7 +159,15 @@ static void check_c01_at(Ctx& c, long long t, hz::Result& r) {
   Civil want = ref::civil_from_secs(static_cast<i128>(t) + m.off);
   Civil got = civil_of(al.cs);
   r.count("evaluations");
-  r.cls(std::string("C01:") + region_of(c, t) + (m.dst ? ":dst" : ":std"));
+  {
+    const std::string k = std::string("C01:") + region_of(c, t) + (m.dst ? ":dst" : ":std");
+    if (r.classes.find(k) == r.classes.end() && r.samples.size() < 4) {
+      char sb[400];
+      snprintf(sb, sizeof sb, "{\"zone\":\"%s\",\"call\":\"lookup(time_point %lld)\",\"reference\":\"off=%d dst=%d abbr=%s cs=%s\",\"class\":\"%s\"}", c.z->id.c_str(), t, m.off, m.dst, m.abbr.c_str(), ref::civil_str(want).c_str(), k.c_str());
+      r.sample(sb);
+    }
+    r.cls(k);
+  }
   bool ok = al.offset == m.off && al.is_dst == m.dst && m.abbr == al.abbr && got == want;
   if (!ok) {
     char b[400];
@@ -191,7 +199,14 @@ static CivRes check_c02_at(Ctx& c, i128 cs, hz::Result& r, bool report, const ch
   int want_kind = m.n == 1 ? CL::UNIQUE : m.n == 0 ? CL::SKIPPED : CL::REPEATED;
   bool sat = !fits(m.pre) || !fits(m.trans) || !fits(m.post);
   r.count("evaluations");
-  r.cls(std::string(prop) + ":" + (m.n == 1 ? "unique" : m.n == 0 ? "skipped" : "repeated") + ":" + region_of(c, clampll(m.trans)) + (sat ? ":saturated" : ""));
+  {
+    const std::string k = std::string(prop) + ":" + (m.n == 1 ? "unique" : m.n == 0 ? "skipped" : "repeated") + ":" + region_of(c, clampll(m.trans)) + (sat ? ":saturated" : "");
+    if (m.n != 1 && r.classes.find(k) == r.classes.end() && r.samples.size() < 4) {
+      std::string sb = "{\"zone\":" + hz::jstr(c.z->id) + ",\"call\":\"lookup(civil " + ref::civil_str(cv) + ")\",\"reference\":\"" + (m.n == 0 ? "SKIPPED" : "REPEATED") + " pre=" + s128(m.pre) + " trans=" + s128(m.trans) + " post=" + s128(m.post) + "\",\"class\":" + hz::jstr(k) + "}";
+      r.sample(sb);
+    }
+    r.cls(k);
+  }
   bool ok = cl.kind == want_kind && glue::unix_of(cl.pre) == clampll(m.pre) &&
             glue::unix_of(cl.trans) == clampll(m.trans) && glue::unix_of(cl.post) == clampll(m.post);
   // stated inequalities on the unclamped reference (self-check of the oracle)
@@ -459,7 +474,7 @@ static void run_zone(const Zone& z, hz::Result& r) {
   Ctx c;
   if (!prepare(z, c, r)) return;
   r.count("zones");
-  r.cls("zone:" + std::string(z.shipped ? "shipped" : z.fixed_off != INT_MIN ? "fixed" : "synthetic") + (c.rz.has_rule ? ":rule" : c.rz.has_std_footer ? ":stdfooter" : ":nofooter"));
+  r.cls("zone:" + std::string(z.shipped ? "shipped" : z.fixed_off != INT_MIN ? "fixed" : z.tags.compare(0, 3, "zic") == 0 ? "zic-compiled" : "synthetic") + (c.rz.has_rule ? ":rule" : c.rz.has_std_footer ? ":stdfooter" : ":nofooter"));
   std::vector<long long> I;
   std::vector<i128> C;
   if (g_prop == "C10") c10_domain(c, &I, &C);
@@ -593,6 +608,25 @@ static std::vector<Zone> build_corpus(const hz::Args& a, hz::Result& r) {
   r.counters["synthetic_filtered_spacing"] = st.filtered_spacing;
   r.counters["synthetic_filtered_rule_order"] = st.filtered_rule_order;
   r.counters["synthetic_filtered_ref_reject"] = st.filtered_ref_reject;
+  // zones compiled by the system zic, slim and fat (optional cross-check of the generator's assumptions)
+  {
+    const std::string zic = "/usr/sbin/zic", zi = std::string(VERIF_SRC_DIR) + "/zic/verif.zi";
+    long long nz = 0;
+    if (access(zic.c_str(), X_OK) == 0 && !a.workdir.empty()) {
+      for (const char* mode : {"slim", "fat"}) {
+        const std::string out = a.workdir + "/zic-" + mode;
+        const std::string cmd = zic + " -b " + mode + " -d " + out + " " + zi + " >/dev/null 2>&1";
+        if (system(cmd.c_str()) != 0) continue;
+        for (auto& n : glue::shipped_zone_names(out)) {
+          Zone z; z.id = std::string("zic-") + mode + "/" + n; z.bytes = glue::read_file(out + "/" + n); z.tags = std::string("zic,") + mode;
+          zs.push_back(z);
+          ++nz;
+        }
+      }
+    }
+    r.counters["corpus_zic_compiled"] = nz;
+    if (nz == 0) r.note("system zic not available: zic cross-check zones skipped");
+  }
   if (g_prop == "C10" || g_prop == "C03" || g_prop == "C06") {
     const int fo[] = {1, -1, 3600, -3600, 86399, -86399, 86400, -86400, 20700, -30};
     for (int o : fo) { Zone z; z.id = "fixed/" + std::to_string(o); z.fixed_off = o; z.tags = "fixed"; zs.push_back(z); }
